@@ -92,7 +92,7 @@ def main():
             runs.append(("MC_FsProtocol_both.cfg", "Kill and PowerFail combined (POSIX-minimal ordering)", None))
             runs.append(("MC_FsProtocol_m_nofsync.cfg", "model sensitivity: fsync before rename dropped", "DurableNoPartialFinalName"))
             runs.append(("MC_FsProtocol_m_nodirsync.cfg", "model sensitivity: replica directory fsync dropped", "R2_ExceptD1"))
-        for cfg, what, expect in runs:
+        for cfg, what, expect in ([] if replay_path else runs):
             r = vlib.run_tlc("FsProtocol", cfg, wd, workers=vlib.NCPU, timeout=1700)
             vlib.tlc_expect_ok(r, cfg)
             rep.add_tlc(cfg, r, what)
@@ -101,7 +101,7 @@ def main():
                     rep.notes.append("MODEL: %s was expected to violate %s and did not (%s)" % (cfg, expect, r.violated))
             elif r.violated:
                 rep.notes.append("design-level counterexample in FsProtocol.tla (%s): %s (a verdict only if observed on the real trace)" % (cfg, r.violated))
-        rep.cov["exhaustive"] = True
+        rep.cov["exhaustive"] = not replay_path
         # ---- R2/R3 real traces
         if replay_path:
             case = json.load(open(replay_path))["case"]
